@@ -699,6 +699,42 @@ func genG02(repo string, w *Out) error {
 		}
 	}
 
+	// ---------------------------------------------------------------- proxy_conn.go handle(): the request body is closed on every path
+	hd, err := pc.Func("proxyConn.handle")
+	if err != nil {
+		return err
+	}
+	closes := false
+	for i, st := range hd.Body.List {
+		if pc.Src(st) == "defer req.Body.Close()" {
+			// it must come right after the read-error block, before anything can return without a round trip
+			if i > 3 {
+				return fmt.Errorf("handle: defer req.Body.Close() is statement #%d, not right after the request was read", i)
+			}
+			closes = true
+		}
+	}
+	w.DefBool("hd_closes_request_body", closes)
+	// proxy.go modifyErrorResponse: the proxy's own challenge survives the response modifiers
+	pxe, err := Parse(repo, "internal/martian/proxy.go")
+	if err != nil {
+		return err
+	}
+	if mer, err := pxe.Func("Proxy.modifyErrorResponse"); err == nil {
+		var ms []string
+		for _, st := range mer.Body.List {
+			ms = append(ms, pxe.Src(st))
+		}
+		switch strings.Join(ms, " ; ") {
+		case `challenge := res.Header.Values("Proxy-Authenticate") ; err := p.modifyResponse(res) ; if len(challenge) > 0 { res.Header["Proxy-Authenticate"] = challenge } ; return err`:
+			w.DefBool("er_keeps_challenge", true)
+		default:
+			return fmt.Errorf("modifyErrorResponse: body %q is not a shape the model knows", ms)
+		}
+	} else {
+		w.DefBool("er_keeps_challenge", false)
+	}
+
 	// ---------------------------------------------------------------- proxy_connect.go
 	pcc, err := Parse(repo, "internal/martian/proxy_connect.go")
 	if err != nil {
